@@ -596,6 +596,12 @@ func (a *Agent) handleUDPOpenAck(peerID identity.AgentID, frame *protocol.Frame)
 		dest.mu.Lock()
 		dest.SessionKey = sessionKey
 		dest.mu.Unlock()
+	} else {
+		// Our UDP_OPEN always carries an ephemeral key. An ACK without one
+		// means the key exchange was stripped somewhere on the path; relaying
+		// datagrams now would expose them in clear to every transit agent.
+		dest.closePendingOpen(fmt.Errorf("UDP_OPEN_ACK without ephemeral key: refusing unencrypted association"))
+		return
 	}
 
 	// Mark as successful (nil error)
